@@ -14,4 +14,5 @@ INVARIANT DevCmr
 INVARIANT DevOpt
 INVARIANT TypeInv
 INVARIANT Emit
+INVARIANT EmitType
 CHECK_DEADLOCK FALSE
